@@ -187,8 +187,10 @@ func CheckC03(r *core.Run) {
 	if r.Thorough() {
 		traces = append(traces, replayTxFile(r, "TxReplay_t.cfg", 2, 10)...)
 		traces = append(traces, replayTxFile(r, "TxReplay_t2.cfg", 3, 2)...)
+		traces = append(traces, replayTxFileSim(r, "TxReplay_sim.cfg", 3, 3000, 120, 10)...)
 	} else {
 		traces = append(traces, replayTxFile(r, "TxReplay_q.cfg", 2, 3)...)
+		traces = append(traces, replayTxFileSim(r, "TxReplay_sim.cfg", 3, 150, 120, 5)...)
 	}
 	if len(traces) > 0 && traces[0] != nil {
 		n := len(traces[0].Events)
